@@ -249,6 +249,37 @@ fn c03_layered_h2() {
     kani::cover!(matches!(&got, Ok(o) if o.iterations >= 1) || got.is_err());
 }
 
+/// the 2x3 matrix with UNSORTED adjacency lists (SparseMatrix keeps insertion order): rows [1,0] and
+/// [2,1], column 1 lists its checks as [1,0]; the decoders must not depend on the order
+fn h1_unsorted() -> ldpc_toolbox::sparse::SparseMatrix {
+    ldpc_toolbox::sparse::SparseMatrix::verif_from_lists(vec![vec![1, 0], vec![2, 1]], vec![vec![0], vec![1, 0], vec![1]])
+}
+
+#[kani::proof]
+#[kani::unwind(8)]
+fn c03_flooding_h1u_l1() {
+    let (ch, f, limit) = inputs_l::<3>(1);
+    let mut d = flooding::Decoder::new(h1_unsorted(), ExactMinSum {});
+    let got = d.decode(&f, limit);
+    let want = textbook_flooding::<3, 2>(&H1_ROWS, &ch, limit);
+    assert!(got == want);
+    kani::cover!(matches!(&got, Ok(o) if o.iterations == 0));
+    kani::cover!(matches!(&got, Ok(o) if o.iterations >= 1) || got.is_err());
+}
+
+#[kani::proof]
+#[kani::unwind(8)]
+fn c03_layered_h1u() {
+    let (ch, f, limit) = inputs::<3>();
+    let mut d = horizontal_layered::Decoder::new(h1_unsorted(), ExactMinSum {});
+    let got = d.decode(&f, limit);
+    // the layered result does not depend on the order inside a row for min-sum
+    let want = textbook_layered::<3, 2>(&H1_ROWS, &ch, limit);
+    assert!(got == want);
+    kani::cover!(matches!(&got, Ok(o) if o.iterations == 0));
+    kani::cover!(matches!(&got, Ok(o) if o.iterations >= 1) || got.is_err());
+}
+
 /// quick-tier variants: iteration limit <= 1
 #[kani::proof]
 #[kani::unwind(8)]
